@@ -29,7 +29,13 @@ func (t TDist) CDF(x float64) float64 {
 	if x == 0 {
 		return 0.5
 	} else if x > 0 {
-		return 1 - 0.5*mathx.BetaInc(t.V/(t.V+x*x), t.V/2, 0.5)
+		x2 := x * x
+		if x2 < t.V {
+			// V/(V+x²) is so close to 1 that it loses most
+			// of x². Use the complementary form instead.
+			return 0.5 + 0.5*mathx.BetaInc(x2/(t.V+x2), 0.5, t.V/2)
+		}
+		return 1 - 0.5*mathx.BetaInc(t.V/(t.V+x2), t.V/2, 0.5)
 	} else if x < 0 {
 		return 1 - t.CDF(-x)
 	} else {
